@@ -10,7 +10,7 @@ From MW Require Import C05.Heap C05.TreeOps C06.Model C06.ModelNesting.
 From MW Require C06.Gen_api C06.ProofsGen C06.Proofs C06.ProofsExtra C07.Proofs.
 From MW Require C06.ProofsNesting C06.ProofsNestingExtra C06.ModelNav C06.ProofsNav C06.ProofsNavFuel.
 From MW Require C06.Gen_nesting C06.ProofsNestingGen.
-From MW Require C06.ModelNestingHeap C06.ProofsNestingHeap.
+From MW Require C06.ModelNestingHeap C06.ProofsNestingHeap C06.ProofsNestingLink.
 Import ListNotations.
 
 (* every attribute name used on a non-module receiver in treecleaner.py / treecleanerhelper.py is defined by
@@ -293,6 +293,25 @@ Theorem C06_filter_tree_heap : forall drop h q s,
 Proof. exact C06.ProofsNestingHeap.hfilter_tree. Qed.
 Print Assumptions C06_filter_tree_heap.
 
+(* the tree-level specification of one repair (ANY node B of a proper document, ANY three markings): after a normal
+   return the heap represents the document in which B's subtree sB is replaced by [top copy; first child of the middle
+   copy; bottom copy], where `fcopy sB k d` = sB renamed to fresh identities k, k+1, ... (preorder) and filtered by d;
+   after one of the two possible exceptions it represents the unchanged document; nothing else can happen *)
+Theorem C06_fix_nesting_repair_heap_spec : forall d1 d2 d3 h r t B sB,
+  tid t = r -> repr h None t -> NoDup (ids t) -> t_find B t = Some sB ->
+  match C06.ModelNestingHeap.repair d1 d2 d3 h B with
+  | C06.ModelNestingHeap.ROk h' => exists k1 k2 k3 sm rest,
+      tkids (C06.ModelNestingHeap.fcopy sB k2 d2) = sm :: rest /\
+      repr h' None (t_replace B [C06.ModelNestingHeap.fcopy sB k1 d1; sm; C06.ModelNestingHeap.fcopy sB k3 d3] t) /\
+      NoDup (ids (t_replace B [C06.ModelNestingHeap.fcopy sB k1 d1; sm; C06.ModelNestingHeap.fcopy sB k3 d3] t))
+  | C06.ModelNestingHeap.RIndexError h' =>
+      repr h' None t /\ exists k2, tkids (C06.ModelNestingHeap.fcopy sB k2 d2) = []
+  | C06.ModelNestingHeap.RNoParent h' => repr h' None t /\ par h B = None
+  | C06.ModelNestingHeap.RErr => False
+  end.
+Proof. exact C06.ProofsNestingHeap.repair_spec. Qed.
+Print Assumptions C06_fix_nesting_repair_heap_spec.
+
 (* one repair, for ANY node B of a proper document and ANY three markings of the three copies (in particular those
    _mark_nodes computes).  Outcomes: normal return; IndexError of middle_tree.children[0]; AttributeError because
    bad_parent.parent is None (only when B is the root) - nothing else is possible (RErr), and in ALL three cases the
@@ -348,3 +367,25 @@ Example C06_fix_nesting_repair_heap_no_parent_example :
              wfb h' 1 = true /\ words h' 1 = words C06.ProofsNestingHeap.hx 1.
 Proof. exact C06.ProofsNestingHeap.repair_no_parent_example. Qed.
 Print Assumptions C06_fix_nesting_repair_heap_no_parent_example.
+
+(* ---- the two models of _filter_tree agree: `filt` of the labelled model (used by the termination and word theorems
+   above) is `tfilter` - what the heap-level replay provably leaves (C06_filter_tree_heap) - under the marking
+   drop j := "the mark of node j is in the filter", on every marked tree with distinct identities ... *)
+Theorem C06_filter_models_agree : forall flt mt, NoDup (ids (C06.ProofsNestingLink.merase mt)) ->
+  erase (filt flt mt) =
+  C06.ModelNestingHeap.tfilter (fun j => flt (C06.ProofsNestingLink.mark_at (C06.ProofsNestingLink.mmarks mt) j))
+                               (C06.ProofsNestingLink.merase mt).
+Proof. exact C06.ProofsNestingLink.filt_tfilter. Qed.
+Print Assumptions C06_filter_models_agree.
+
+(* ... in particular for the marked tree _mark_nodes builds from the bad parent B (any membership test, any divide
+   path): each of the three pieces of ModelNesting.pieces is tfilter of B's tree.  (What is still NOT proved: that
+   copy()'s renaming `ren` and the labelled model's `fresh_id` renaming yield the same document up to a bijection of
+   the fresh identities - the last step of a full refinement heap model <-> labelled model.) *)
+Theorem C06_fix_nesting_pieces_are_tfilter : forall eqn divide prob B flt, NoDup (lids B) ->
+  erase (filt flt (mark_t eqn divide prob MNone B)) =
+  C06.ModelNestingHeap.tfilter
+    (fun j => flt (C06.ProofsNestingLink.mark_at (C06.ProofsNestingLink.mmarks (mark_t eqn divide prob MNone B)) j))
+    (erase B).
+Proof. exact C06.ProofsNestingLink.pieces_tfilter. Qed.
+Print Assumptions C06_fix_nesting_pieces_are_tfilter.
